@@ -112,7 +112,7 @@ UnionsQ == { <<SName(kA), SName(kB)>>, <<SName(kB), SName(kA)>>, <<SName(kA), SN
              <<SName(kB), SPath("cur", <<N(kB), W>>)>>, <<SPath("cur", <<Ix(0)>>), SPath("cur", <<Ix(0)>>)>>,
              <<SFilter(FCmp("==", Cur(<<N(kA)>>), L(I(1)))), SIdx(0)>>, <<SName(kA), SFilter(Cur(<<N(kA)>>))>> }
 UnionsT == UnionsQ \cup { <<SName(kU), SName(kD)>>, <<SName(kM), SName(kZ), SName(kM)>>, <<SWild, SWild>>, <<SIdx(1), SIdx(1), SIdx(1)>>,
-             <<SPath("cur", <<Desc(<<SName(kA)>>)>>), SWild>>, <<SPath("root", <<>>), SIdx(0 - 1)>>,
+             <<SPath("cur", <<Desc(<<SName(kA)>>)>>), SWild>>, <<SPath("cur", <<W, N(kA)>>), SIdx(0 - 1)>>,
              <<Sl(BAbs, BAbs, BAbs), Sl(BAbs, BAbs, BV(0 - 1))>>,
              <<SFilter(FCmp(">", Cur(<<>>), L(I(1)))), SFilter(FCmp("<", Cur(<<>>), L(I(3))))>> }
 Unions == IF Big THEN UnionsT ELSE UnionsQ
